@@ -284,7 +284,9 @@ pub fn gen_doc(rng: &mut Rng) -> GenDoc {
         let mut r = Rng::new(seed);
         let self_at = if pass == 1 && want_self && news > 0 { Some((seed % news as u64) as usize) } else { None };
         let mut g = DocGen { rng: &mut r, keys: vec![], positions: vec![], k: 0, lets: vec![], self_at, news: 0, missing };
-        let mut text = String::from("package test:doc");
+        // the document's own package carries a version half of the time (paths into it stay
+        // unversioned: they are local whatever the version)
+        let mut text = String::from(if seed % 2 == 0 { "package test:doc@1.0.0" } else { "package test:doc" });
         if g.rng.chance(1, 4) {
             let (p, v) = g.wit_ref("targets");
             text.push_str(&format!(" targets {p}/w1{v}"));
